@@ -129,7 +129,7 @@ func callOp(kind string) byte {
 // emitCall: the child's node id travels as one byte of call data.
 func emitCall(a *asm, kind string, to common.Address, val int, id int, gas uint64) {
 	a.push(uint64(id)).push(0).op(opMSTORE8) // mem[0] = id
-	a.push(0).push(0).push(1).push(0)       // retSize retOff inSize inOff
+	a.push(0).push(0).push(1).push(0)        // retSize retOff inSize inOff
 	if kind == "call" || kind == "callcode" {
 		a.push(uint64(val))
 	}
